@@ -45,6 +45,11 @@ def jobs(tier, seed):
     # a concrete sweep over small integer ranges, where those roundings do occur, executes the same code with real float arithmetic
     for k in (2, 3, 5, 7):
         out.append({'name': 'equal_interval-float-landmarks-k%d' % k, 'kind': 'ei-landmarks', 'k': k})
+    # same for quantile (percentile list built with arange: k = 2..40 on 100 distinct non-integer values) and natural_breaks
+    # (break values not representable in float32)
+    for lo, hi in ((2, 14), (14, 27), (27, 41)):
+        out.append({'name': 'quantile-float-landmarks-k%d-%d' % (lo, hi - 1), 'kind': 'q-landmarks', 'ks': list(range(lo, hi))})
+    out.append({'name': 'natural_breaks-float-landmarks', 'kind': 'nb-landmarks'})
     for shp in ([(1, 3), (2, 2)] if tier == 'quick' else [(1, 3), (2, 2), (1, 5)]):
         for k in ((2,) if tier == 'quick' else (2, 3)):
             out.append({'name': 'natural_breaks-%dx%d-k%d' % (shp[0], shp[1], k), 'kind': 'natural_breaks', 'shape': list(shp), 'k': k,
@@ -64,6 +69,10 @@ def body(ctx, job):
         return
     if kind == 'ei-landmarks':
         return body_ei_landmarks(ctx, job)
+    if kind == 'q-landmarks':
+        return body_q_landmarks(ctx, job)
+    if kind == 'nb-landmarks':
+        return body_nb_landmarks(ctx, job)
     if kind == 'binary':
         return body_binary(ctx, job)
     return body_datadriven(ctx, job)
@@ -131,6 +140,40 @@ def body_ei_landmarks(ctx, job):
             ctx.check('non-finite-cells-are-nan', out[4] != out[4], info=info)
             ctx.check('finite-cells-get-integer-class-in-range', all(o in range(k) for i, o in enumerate(out) if i != 4), info=info)
             ctx.check('order-preserving', all(out[i] <= out[j] for i in range(6) for j in range(6) if i != 4 and j != 4 and cellsv[i] <= cellsv[j]), info=info)
+
+
+def _landmark_claims(ctx, cellsv, out, k, what):
+    fin = [i for i, v in enumerate(cellsv) if v == v and abs(v) != float('inf')]
+    info = {'fn': what, 'values': cellsv if len(cellsv) <= 8 else '%d values' % len(cellsv), 'k': k,
+            'classes': [None if (o is None or o != o) else o for o in out][:12]}
+    ctx.check('finite-cells-get-integer-class-in-range', all(out[i] == out[i] and out[i] in range(k) for i in fin), info=info)
+    ctx.check('non-finite-cells-are-nan', all(out[i] != out[i] for i in range(len(cellsv)) if i not in fin), info=info)
+    ctx.check('order-preserving', all(out[i] <= out[j] for i in fin for j in fin if cellsv[i] <= cellsv[j]), info=info)
+    imax = max(fin, key=lambda i: cellsv[i])
+    ctx.check('max-gets-top-class', out[imax] == max(o for o in (out[i] for i in fin) if o == o) if any(out[i] == out[i] for i in fin) else False, info=info)
+
+
+def _plain_list(a):
+    return [v if not sc.is_sym(v) else sc.as_const(v) for v in a.ravel().flat_values()]
+
+
+def body_q_landmarks(ctx, job):
+    cellsv = [i / 7.0 for i in range(100)]
+    for k in job['ks']:
+        d = symnp.asarray(cellsv, 'float64').reshape(10, 10).copy()
+        res = ctx.call('classify:quantile', raster(d, attrs={'res': 1}, name='a'), k)
+        out = _plain_list(vals(res))
+        _landmark_claims(ctx, cellsv, out, k, 'quantile')
+        ctx.check('quantile-uses-all-k-classes-on-distinct-data', len({o for o in out if o == o}) == k, info={'k': k, 'classes_used': len({o for o in out if o == o})})
+
+
+def body_nb_landmarks(ctx, job):
+    for cellsv in ([0.1, 0.2, 0.3, 0.7], [0.1, 0.35, 0.36, 0.9, 1.7, 1.75], [3.3, 1.1, 2.2, 9.9, 9.7, float('nan')], [1e-3, 2e-3, 7e-3, 8e-3]):
+        for k in (2, 3):
+            d = symnp.asarray([cellsv], 'float64').copy()
+            res = ctx.call('classify:natural_breaks', raster(d, attrs={'res': 1}, name='a'), 20000, 'nb', k)
+            out = _plain_list(vals(res))
+            _landmark_claims(ctx, cellsv, out, k, 'natural_breaks')
 
 
 def body_datadriven(ctx, job):
